@@ -8,6 +8,7 @@ import (
 	"time"
 
 	"github.com/go-ldap/ldap/v3"
+	"github.com/hashicorp/go-hclog"
 	"github.com/jimlambrt/gldap"
 
 	"verif/internal/sber"
@@ -18,12 +19,13 @@ func init() {
 		ID: "C01", Level: "exploration", Primary: "shapes", EvalCount: "requests_compared",
 		Rule: "requests are drawn from a seeded generator over all seven operations (message IDs over 0..2^31-1 incl. boundary values, adversarial byte strings, " +
 			"go-ldap-accepted round-tripping filters, 0..n attributes/changes/values, 0..n controls of all nine typed kinds and generic OIDs, both criticalities) and encoded by two " +
-			"independent encoders (sber, go-ldap client); each is compared field by field with what the handler obtains through the public API. " +
+			"independent encoders (sber, go-ldap client), against servers logging at Error and at Debug level; each is compared field by field with what the handler obtains through the public API. " +
 			"distinct_nontrivial counts distinct shape signatures (operation, id class, length classes, counts per list, control kind/criticality/value-presence sequence) of requests that reached a handler",
 		Assume: []string{"extended-request values and extended/unbind controls are not exposed by gldap and are not asserted",
 			"an extended request's name is observed through the exact-name route that served it, its message ID through the response's message ID"},
 		Phases: func(tier string, seed int64) []Phase {
 			ps := []Phase{{Name: "raw-plain", Run: func(c *Ctx) { c01Raw(c, false) }},
+				{Name: "raw-debuglog", Run: func(c *Ctx) { c01DebugLog = true; c01Raw(c, false) }},
 				{Name: "goldap", Run: c01GoLDAP},
 				{Name: "negative", Run: c01Negative}}
 			if tier == "thorough" {
@@ -31,7 +33,7 @@ func init() {
 			}
 			return ps
 		},
-		MinObserved: []string{"requests_compared", "negative_frames", "goldap_requests"},
+		MinObserved: []string{"requests_compared", "negative_frames", "goldap_requests", "connections_served_with_a_debug_level_logger"},
 	})
 }
 
@@ -119,10 +121,18 @@ func c01CheckConn(c *Ctx, enc string, specs []*ReqSpec, obs []*Obs, negIDs map[i
 	}
 }
 
+// c01DebugLog makes the recording servers log at Debug level (the server pretty-prints every packet it reads and
+// writes): what a handler receives must not depend on the log level.
+var c01DebugLog bool
+
 // c01Server starts a recording server.
 func c01Server(tc *tls.Config) (*Srv, *Recorder, error) {
 	rc := &Recorder{}
-	srv, err := startSrv(SrvCfg{TLS: tc}, func(m *gldap.Mux) { rc.RegisterAll(m, c01ExtNames) })
+	cfg := SrvCfg{TLS: tc}
+	if c01DebugLog {
+		cfg.LogLevel = hclog.Debug
+	}
+	srv, err := startSrv(cfg, func(m *gldap.Mux) { rc.RegisterAll(m, c01ExtNames) })
 	return srv, rc, err
 }
 
@@ -138,6 +148,10 @@ func uniqueIDs(r *Rand, specs []*ReqSpec, used map[int64]bool) {
 
 func c01Raw(c *Ctx, useTLS bool) {
 	conns := c.N(600, 8000)
+	if c01DebugLog {
+		conns = c.N(120, 1500)
+		c.Count("connections_served_with_a_debug_level_logger", int64(conns))
+	}
 	if useTLS {
 		conns = c.N(60, 1500)
 	}
